@@ -238,6 +238,18 @@ def gen_op(rng, addrs, nmax, p_bad, sk=None, root_only=False):
     return {"op": "reset", "addr": addr}
 
 
+def gen_descendant_op(rng, addr):
+    """a length-preserving operation addressed to a descendant: scalar move / scalar rotation (anchor none / 0 / scalar), start
+    'auto' (= 0 for scalar input), 0 or -1 — all inside a path of any length >= 1"""
+    start = rng.choice([None, None, 0, -1])
+    if rng.random() < 0.5:
+        return {"op": "move", "addr": addr, "inp": ["s", rvec(rng)], "start": start, "descendant": True}
+    a = rng.random()
+    anchor = None if a < 0.4 else (0 if a < 0.55 else ["s", rvec(rng)])
+    return {"op": "rot", "addr": addr, "rot": ["s", rng.randrange(24)], "anchor": anchor, "start": start,
+            "form": rng.choice(["rotate", "rotate", "quat", "matrix", "rotvec"]), "descendant": True}
+
+
 def gen_anchor(rng):
     a = rng.random()
     if a < 0.30:
@@ -320,7 +332,13 @@ def gen_history(rng, n_ops, max_nodes=6, p_bad=0.08, equal_lengths=False):
             ops.append({"op": "setori", "addr": a, "val": [rng.randrange(24) for _ in range(n)], "single": False, "none": False})
         # root-only afterwards keeps the equal-length hypothesis for scalar ops; vector ops change all alike
         for _ in range(n_ops):
-            op = gen_op(rng, [[]], 4, p_bad, sk=sk, root_only=True)
+            others = [a for a in sk_addresses(sk) if a]
+            if others and rng.random() < 0.2:
+                # an operation addressed to a DESCENDANT that keeps the path length (scalar input, start inside the path): the regime
+                # of `history_refines_spec_any_address` — interleaved with the operations on the collection itself
+                op = gen_descendant_op(rng, rng.choice(others))
+            else:
+                op = gen_op(rng, [[]], 4, p_bad, sk=sk, root_only=True)
             ops.append(op)
             sk_apply(sk, op)
             if op["op"] == "add":
@@ -741,6 +759,10 @@ def run_stream(ctx, n_hist, n_ops, equal_lengths_share=0.3, corpus=None):
         stats["tree_sizes"][len(h["shape"])] = stats["tree_sizes"].get(len(h["shape"]), 0) + 1
         for op in h["ops"]:
             stats["op_kinds"][op["op"]] = stats["op_kinds"].get(op["op"], 0) + 1
+            if op["addr"] and op["op"] not in ("bad",):
+                stats["descendant_ops"] = stats.get("descendant_ops", 0) + 1
+                if op.get("descendant"):
+                    stats["descendant_ops_uniform_regime"] = stats.get("descendant_ops_uniform_regime", 0) + 1
             if op["op"] == "rot":
                 stats["forms"][op.get("form")] = stats["forms"].get(op.get("form"), 0) + 1
             if op["op"] == "rotfrom":
@@ -777,16 +799,18 @@ def run_stream(ctx, n_hist, n_ops, equal_lengths_share=0.3, corpus=None):
     stats["distinct_states"] = len(seen_states)
     stats["samples"] = samples
     print("path stream op distribution:", json.dumps({"ops": stats["op_kinds"], "rotate forms": stats["forms"],
-                                                       "entry points": stats["entry_points"], "rejected": stats["err_kinds"]}, sort_keys=True))
+                                                       "entry points": stats["entry_points"], "rejected": stats["err_kinds"],
+                                                       "ops addressed to descendants": stats.get("descendant_ops", 0),
+                                                       "of these in the equal-length regime": stats.get("descendant_ops_uniform_regime", 0)}, sort_keys=True))
     return stats
 
 
 # ------------------------------------------------------------------ C12: the same history at a second length scale
-def _real_states(h, dump):
+def _real_states(h, dump, root=None):
     """the operation dispatch of `real_lines` with a caller-supplied state dump (no snapping); returns (states, errkinds)"""
     from magpylib._src.exceptions import MagpylibBadUserInput
 
-    root = build_real(h["shape"])
+    root = build_real(h["shape"]) if root is None else root
     out = [("ok", dump(root))]
     errs = []
     for op in h["ops"]:
@@ -936,4 +960,206 @@ def run_scale_stream(ctx, n_hist, n_ops):
                             "final_positions_base": [p.tolist() for p, _ in base[-1][1]][:3], "final_positions_scaled": [p.tolist() for p, _ in scaled[-1][1]][:3]})
     stats["samples"] = samples
     print("path-scale stream:", json.dumps({k: v for k, v in stats.items() if k not in ("samples",)}, sort_keys=True))
+    return stats
+
+
+# ------------------------------------------------------------------ C10: the field a collection's own sensor reads, over histories
+def spec_window(scalar, N, L, start):
+    """Spec/PathSpec.lean `window`: (entries padded in front, new length)"""
+    s = (0 if scalar else N) if start is None else (N + start if start < 0 else start)
+    b, s0 = max(0, -s), max(0, s)
+    return b, max(N + b, s0 + (1 if scalar else L))
+
+
+def op_index_map(op, N):
+    """`HOp.idx` / `HOp.newLen` (Lemmas/HistoryAddr.lean) of an ACCEPTED operation on a collection of common path length N:
+    (new length, index map).  Operations addressed to descendants: identity."""
+    k = op["op"]
+    if op["addr"] or k == "bad":
+        return N, (lambda i: i)
+    if k == "move":
+        sc = op["inp"][0] == "s"
+        b, n2 = spec_window(sc, N, 1 if sc else len(op["inp"][1]), op["start"])
+        return n2, (lambda i: min(max(i - b, 0), N - 1))
+    if k in ("rot", "angax", "rotfrom"):
+        if k == "rot":
+            rsc, rlen = op["rot"][0] == "s", (0 if op["rot"][0] == "s" else len(op["rot"][1]))
+        elif k == "angax":
+            rsc, rlen = op["angle"][0] == "s", (0 if op["angle"][0] == "s" else len(op["angle"][1]))
+        elif op["kind"] == "euler":
+            if op["eshape"] == "num":
+                rsc, rlen = True, 0
+            elif op["eshape"] == "arr1":
+                rsc = len(op["seq"]) != 1
+                rlen = 0 if rsc else len(op["data"])
+            else:
+                rsc, rlen = False, len(op["data"])
+        else:
+            rsc, rlen = op["single"], (0 if op["single"] else len(op["data"]))
+        an = op["anchor"]
+        asc = an is None or an == 0 or an[0] == "s"
+        alen = 0 if asc else len(an[1])
+        b, n2 = spec_window(rsc and asc, N, max(rlen, alen), op["start"])
+        return n2, (lambda i: min(max(i - b, 0), N - 1))
+    if k in ("setpos", "setori"):
+        M = 1 if op.get("none") else len(op["val"])
+        return M, (lambda i: i + (N - M) if M <= N else min(i, N - 1))
+    if k == "reset":
+        return 1, (lambda i: N - 1)
+    raise ValueError(k)
+
+
+def gen_own_sensor_case(rng, n_ops, p_bad=0.06):
+    """a collection tree whose leaves are CustomSource objects (field function: an integer affine map of the local observer position)
+    and ONE sensor (1..3 pixels, either handedness), every member given the same path length; then operations on the collection itself
+    (every kind `gen_op` makes for the root) interleaved with length-preserving operations addressed to descendants"""
+    while True:
+        shape = gen_shape(rng, 6)
+        addrs = addresses(shape)
+        leaves = [a for a, k in zip(addrs, shape) if k == 0 and a]
+        if len(leaves) >= 2:
+            break
+    ks = rng.choice(leaves)
+    cand = [a for a in leaves if a != ks]
+    keep = [a for a in cand if rng.random() < 0.65] or [rng.choice(cand)]  # the other leaves are idle objects (plain sensors): operations
+    srcs = [{"addr": a, "A": [[rng.randint(-2, 2) for _ in range(3)] for _ in range(3)], "b": rvec(rng)} for a in keep]  # on them touch nothing tracked
+    n = rng.choice([1, 2, 3, 4])
+    init = []
+    for a in reversed(addrs):
+        init.append({"op": "setpos", "addr": a, "val": [rvec(rng) for _ in range(n)], "flat": False})
+        init.append({"op": "setori", "addr": a, "val": [rng.randrange(24) for _ in range(n)], "single": False, "none": False})
+    ops = []
+    inner = [a for a in addrs if a]
+    idle = [a for a in leaves if a != ks and a not in keep]
+    for _ in range(n_ops):
+        if rng.random() < 0.2:
+            ops.append(gen_descendant_op(rng, rng.choice(idle if idle and rng.random() < 0.6 else inner)))
+        else:
+            ops.append(gen_op(rng, [[]], 4, p_bad))
+    return {"shape": shape, "init": init, "ops": ops, "sensor": ks, "srcs": srcs, "left": rng.random() < 0.4,
+            "pixels": [rvec(rng) for _ in range(rng.choice([1, 1, 2, 3]))]}
+
+
+def build_own_sensor_real(c):
+    import magpylib as magpy
+
+    kinds = {tuple(s["addr"]): s for s in c["srcs"]}
+    it = iter(c["shape"])
+    made = {}
+
+    def rec(addr):
+        k = next(it)
+        if k == 0 and tuple(addr) == tuple(c["sensor"]):
+            o = magpy.Sensor(pixel=np.array(c["pixels"], dtype=float), handedness="left" if c["left"] else "right")
+        elif k == 0 and tuple(addr) in kinds:
+            A, b = np.array(kinds[tuple(addr)]["A"], float), np.array(kinds[tuple(addr)]["b"], float)
+            o = magpy.misc.CustomSource(field_func=lambda field, observers, A=A, b=b: observers @ A.T + b)
+        elif k == 0:
+            o = magpy.Sensor()
+        else:
+            o = magpy.Collection(*[rec(addr + [j]) for j in range(k)])
+        made[tuple(addr)] = o
+        return o
+
+    root = rec([])
+    return root, made[tuple(c["sensor"])]
+
+
+def own_sensor_read_line(c):
+    srcs = " ".join(f"{enc_addr(s['addr'])} {fmt_mat(s['A'])} {fmt_vec(s['b'])}" for s in c["srcs"])
+    return (f"path read {len(c['srcs'])} {srcs} {enc_addr(c['sensor'])} {int(c['left'])} {len(c['pixels'])} "
+            + " ".join(fmt_vec(v) for v in c["pixels"]))
+
+
+def run_own_sensor_stream(ctx, n_hist, n_ops):
+    """C10 own-sensor row.  After the construction and after every operation (a) the reading of the collection's own sensor computed
+    by the REAL `getB(collection, sensor)` is compared EXACTLY with the reading the Lean driver computes from ITS tree state
+    (`Node.ownTensor`: Model/Level2 `tensor` on the objects at the same addresses) — the tie of the model the theorems
+    `own_sensor_reading_invariant_history` / `history_index_map` are about; (b) on the real values alone: the reading after the
+    operation at every path index i equals the reading before it at index `HOp.idx … i`, and the new path length is `HOp.newLen`
+    (`op_index_map`, written from the Lean definitions), whenever the operation does not address a source / the sensor or one of
+    their ancestors below the collection.  Integer data: positions in Z^3, octahedral rotations, integer affine field functions."""
+    import magpylib as magpy
+
+    stats = {"histories": 0, "ops": 0, "readings_compared_with_model": 0, "invariance_rows": 0, "invariance_steps": 0,
+             "steps_touching_a_tracked_member": 0, "descendant_ops_not_touching": 0, "rejected_ops": 0, "op_kinds": {},
+             "length_changes": 0, "max_path_len": 0, "disagreements": 0, "distinct_readings": 0}
+    seen = set()
+    cases = [gen_own_sensor_case(ctx.rng, n_ops) for _ in range(n_hist)]
+    all_lines, spans = [], []
+    for c in cases:
+        h = {"shape": c["shape"], "ops": c["init"] + c["ops"]}
+        ml = model_lines(h)
+        rd = own_sensor_read_line(c)
+        n0 = 1 + len(c["init"])
+        lines = ml[:n0] + [rd]
+        for line in ml[n0:]:
+            lines += [line, rd]
+        spans.append((len(all_lines), len(all_lines) + len(lines)))
+        all_lines += lines
+    out_all = run_driver(all_lines)
+    tracked_of = lambda c: [tuple(c["sensor"])] + [tuple(s["addr"]) for s in c["srcs"]]
+    for c, (a, b) in zip(cases, spans):
+        out = out_all[a:b]
+        n0 = 1 + len(c["init"])
+        model_reads = [out[n0]] + [out[n0 + 2 * j + 2] for j in range(len(c["ops"]))]
+        root, sensor = build_own_sensor_real(c)
+
+        def dump(r, sensor=sensor):
+            B = np.asarray(magpy.getB(r, sensor, squeeze=False), dtype=float)[0, :, 0]
+            q = np.rint(B)
+            if np.max(np.abs(B - q)) > 1e-6:
+                raise ValueError("reading not on the integer grid")
+            return len(r._position), q.astype(int).reshape(B.shape[0], -1, 3)
+
+        h = {"shape": c["shape"], "ops": c["init"] + c["ops"]}
+        states, errs = _real_states(h, dump, root=root)
+        states = states[len(c["init"]):]  # states[0] = after construction, states[j + 1] = after operation j
+        stats["histories"] += 1
+        stats["ops"] += len(c["ops"])
+        stats["rejected_ops"] += sum(1 for t, _ in states[1:] if t == "err")
+        bad = None
+        for j, (tag, (N, Bm)) in enumerate(states):
+            real_line = f"read {Bm.shape[0]} | " + " | ".join(" ".join(fmt_vec(v) for v in row) for row in Bm)
+            stats["readings_compared_with_model"] += 1
+            stats["max_path_len"] = max(stats["max_path_len"], N)
+            seen.add(real_line)
+            if model_reads[j] != real_line:
+                bad = (j, "model reading differs from getB", model_reads[j][:300], real_line[:300])
+                break
+            if j == 0:
+                continue
+            op = c["ops"][j - 1]
+            stats["op_kinds"][op["op"]] = stats["op_kinds"].get(op["op"], 0) + 1
+            N0, B0 = states[j - 1][1]
+            touched = bool(op["addr"]) and any(t[:len(op["addr"])] == tuple(op["addr"]) for t in tracked_of(c))
+            if touched and tag == "ok":
+                stats["steps_touching_a_tracked_member"] += 1
+                continue
+            n2, sig = (N0, (lambda i: i)) if tag == "err" else op_index_map(op, N0)
+            if op["addr"] and tag == "ok":
+                stats["descendant_ops_not_touching"] += 1
+            if n2 != N or Bm.shape[0] != n2:
+                bad = (j, f"path length after the operation {N} (reading rows {Bm.shape[0]}), HOp.newLen gives {n2}", None, None)
+                break
+            stats["length_changes"] += int(n2 != N0)
+            stats["invariance_steps"] += 1
+            for i in range(n2):
+                stats["invariance_rows"] += 1
+                if not np.array_equal(Bm[i], B0[sig(i)]):
+                    bad = (j, f"reading at index {i} after the operation differs from the reading at index {sig(i)} before it",
+                           Bm[i].tolist(), B0[sig(i)].tolist())
+                    break
+            if bad:
+                break
+        if bad:
+            stats["disagreements"] += 1
+            j = bad[0]
+            ctx.broken.append({"kind": "correspondence", "name": "path-own-sensor",
+                               "detail": {"what": bad[1], "after_operation": j, "a": bad[2], "b": bad[3],
+                                          "case": {**c, "ops": c["ops"][:j]}}})
+            if stats["disagreements"] >= 3:
+                break
+    stats["distinct_readings"] = len(seen)
+    print("path own-sensor stream:", json.dumps(stats, sort_keys=True))
     return stats
